@@ -34,7 +34,7 @@ from . import common
 ID = "C14"
 LEVEL = "exploration"
 TIERS = {
-    "quick": {"runs": 700, "wall": 80, "run_timeout": 150, "shrink_s": 60, "shrink_tries": 400},
+    "quick": {"runs": 1600, "wall": 70, "run_timeout": 150, "shrink_s": 60, "shrink_tries": 400},
     "thorough": {"runs": 40000, "wall": 1100, "run_timeout": 300, "shrink_s": 180, "shrink_tries": 1500},
 }
 RULE = ("case = seeded world history of 4..22 operations (computations incl. pooled gamma under a seeded line-level schedule, "
